@@ -5,6 +5,7 @@ import (
 	"go/ast"
 	"go/parser"
 	"go/token"
+	"math/rand"
 	"os"
 	"path/filepath"
 	"regexp"
@@ -14,6 +15,7 @@ import (
 
 	vast "verif/ast"
 	"verif/gen"
+	"verif/mut"
 	"verif/ref/sem"
 	"verif/ref/typing"
 	"verif/sup"
@@ -44,6 +46,16 @@ func genCases(c *Check, n int, salt int, opt func(i int) *gen.Opt) []*progCase {
 		if v := typing.Check(p); v.Kind != typing.Accept {
 			fmt.Fprintf(os.Stderr, "HARNESS BUG: generated program rejected by R1: %s\n%s\n", v, p.Text())
 			os.Exit(2)
+		}
+		// a third of the programs is used in an adversarially renamed form (bound names drawn
+		// from a pool of three identifiers): same program, many identifier coincidences
+		if h := subSeed(s, 77); h%3 == 0 {
+			q, _ := mut.Rename(p, rand.New(rand.NewSource(h)), true)
+			if typing.Check(q).Kind == typing.Accept {
+				q.Feat = p.Feat
+				q.Feat["adversarial-names"]++
+				p = q
+			}
 		}
 		m := sem.New(p)
 		if !m.Lazy(400000) {
@@ -461,6 +473,7 @@ func checkC03() int {
 	byProg := map[string][]obs{}
 	fpsBy := map[string]map[uint64]bool{}
 	allFps := map[uint64]bool{}
+	dups, dupSame := 0, 0
 	for _, r := range outs {
 		c.Evaluations++
 		o := r.o
@@ -492,6 +505,8 @@ func checkC03() int {
 		}
 		fpsBy[r.pc.ID][run.Fingerprint] = true
 		allFps[run.Fingerprint] = true
+		dups += run.Dups
+		dupSame += run.DupSameIdent
 	}
 	multi := 0
 	for id, os := range byProg {
@@ -526,6 +541,8 @@ func checkC03() int {
 	}
 	c.Extra["programs"] = len(cases)
 	c.Extra["programs_with_2plus_schedules"] = multi
+	c.Extra["duplications_observed"] = dups
+	c.Extra["duplications_of_a_process_holding_two_channels_with_one_identifier"] = dupSame
 	c.Extra["distinct_interleaving_fingerprints"] = len(allFps)
 	c.Extra["generator_features"] = featKeys(cases)
 	if len(allFps) < 2 {
